@@ -368,3 +368,13 @@ Print Assumptions generated_posting_account_in_force.
 Theorem skip_test_is_rule_made : src_extend_skip = SkipGeneratedNotCalculated.
 Proof. reflexivity. Qed.
 Print Assumptions skip_test_is_rule_made.
+
+(* the predicate of a rule is written on one line that the query lexer receives as ONE string; blank,
+   TAB, CR and LF alike are skipped before a word and end a word there (read from src/query.cc and
+   src/textual.cc on every run; the generators separate the words of predicates by blanks, TABs
+   and runs of both) *)
+Theorem rule_header_words_end_at_blanks_and_tabs :
+  src_rule_header_is_one_string = true /\
+  src_query_blanks_skipped = [9; 10; 13; 32]%Z /\ src_query_word_ends = [9; 10; 13; 32]%Z.
+Proof. repeat split; reflexivity. Qed.
+Print Assumptions rule_header_words_end_at_blanks_and_tabs.
